@@ -96,7 +96,9 @@ pub fn panic_class(p: &(dyn std::any::Any + Send)) -> String {
     } else if msg.contains("Size mismatch") {
         "size_mismatch".to_string()
     } else {
-        format!("other:{}", msg.replace(' ', "_"))
+        // one answer per line: a multi-line message (assert_eq! prints left/right on their own lines) must not
+        // split the answer, or the oracle verdict after it is lost
+        format!("other:{}", msg.split_whitespace().collect::<Vec<_>>().join("_"))
     };
     format!("panic({})", class)
 }
